@@ -6,6 +6,7 @@ package rtsp
 
 import (
 	"bufio"
+	"errors"
 	"fmt"
 	"io"
 	"sort"
@@ -284,9 +285,9 @@ func readLine(r *bufio.Reader) (string, error) {
 		if !more {
 			break
 		}
-		// if len(line) >maxLineLenght {
-		// 	return string(line),errors.New("line over the maximum length")
-		// }
+		if len(line) > maxLineLenght {
+			return "", errors.New("line over the maximum length")
+		}
 	}
 	return string(line), nil
 }
